@@ -203,6 +203,12 @@ def rule_h2(src, rep, it, counts):
         [("it's", {"underline": True}), ('say "x"', {"fg": 32})],
         [("x", {"fg": 31, "bold": False}), ("\n", {}), ("\ty", {"invert": True, "dark": True})],
         [("", {"fg": 31}), ("z", {"blink": True})],
+        [("", {})],
+        [("", {"fg": 31})],
+        [("", {"bg": 44}), ("", {})],
+        [("abc", {}), ("", {"bold": True})],
+        [("the quick brown fox jumps over the lazy dog, twice: " * 2, {"fg": 31})],
+        [("x" * 300, {}), ("y" * 40, {"underline": True})],
     ]
     for runs in multi:
         obj = mk(it, *runs)
